@@ -521,7 +521,7 @@ def r3_loops(src, ctx, map_locals=()):
                         e = re.sub(r'\.into_iter\(\)$', '', expr)
                         ctor = f'verif_into_iter({e})'
                     new = f'{{ let mut {itv} = {ctor};\nwhile {itv}.has_next() /*DEC*/ decreases {itv}.rest().len() {{\nlet {pat} = {itv}.next_val();\n'
-                    close_extra = ' }'
+                    close_extra = '\n}'
                     rule = 'R12'
                 elif not by_value and _has_continue(ct, bo, bc):
                     mm = re.match(r'^&\s*(\w[\w.]*)$', expr) or re.match(r'^(\w[\w.]*)\.iter\(\)$', expr)
@@ -552,7 +552,7 @@ def r12_skip_by_value(src, ctx):
             itv = ctx.fresh('it')
             new = f'{{ let mut {itv} = verif_into_iter_skip({mm.group(1).strip()}, {mm.group(2).strip()});\nwhile {itv}.has_next() /*DEC*/ decreases {itv}.rest().len() {{\nlet {pat} = {itv}.next_val();\n'
             before = re.sub(r'\s+', ' ', src[ct[i_for].s:ct[bo].e])
-            src = src[:ct[i_for].s] + new + src[ct[bo].e:ct[bc].e] + ' }' + src[ct[bc].e:]
+            src = src[:ct[i_for].s] + new + src[ct[bo].e:ct[bc].e] + '\n}' + src[ct[bc].e:]
             ctx.log.append(('R12', before, new))
             done = False
             break
